@@ -69,6 +69,7 @@ def run(ctx):
 
 
 def check_cfg(ctx, fx, cfg):
+    check_join_handle_is_inert(ctx, fx, cfg, "R17.5")
     # R17.1
     res = run_loops(ctx, fx, "R17.1", {"L11a"})
     for f, kind, b, n in res:
@@ -197,6 +198,84 @@ def handle_parts(ctx, fx, f):
     return join, detach, mk
 
 
+def reporting_task(ctx, fx, f, b, spawn_t):
+    """if what spawn_actor hands to the runtime is an async block of its own (not the loop future itself): is it the reporting
+    shape — await the captured loop future, send its result on a one-shot channel created here, whose receiver is what is
+    stored for the joins? {"ok": bool, "why": str} or None when the loop future is spawned directly"""
+    lit = None
+    for o in b.origins(spawn_t["args"][0]):
+        if o.kind == "agg":
+            r = b.blocks[o.site[0]]["s"][o.site[1]]["r"]
+            if r.get("ak") == "coroutine" and fx.fn(r.get("def") or "") is not None:
+                lit = (fx.fn(r["def"]), r)
+    if lit is None:
+        return None
+    co, r = lit
+    cb = ctx.body(fx, co)
+    sends = [t for _, t in cb.normal_calls() if (t.get("callee") or "").startswith("futures_channel::oneshot::") and (t.get("callee") or "").endswith("::send")]
+    if len(sends) != 1:
+        return {"ok": False, "why": "%d one-shot sends in the spawned task" % len(sends)}
+    val = cb.origins(sends[0]["args"][1])
+    awaited_upvar = bool(val) and all(o.kind == "await" and all(p.kind == "upvar" for p in cb.polled_future_origins(o.site[0])) for o in val)
+    if not awaited_upvar:
+        return {"ok": False, "why": "what is sent is not the awaited result of the captured future"}
+    # the captured future is spawn_actor's own parameter; the sender comes from a channel created here
+    caps_ok = True
+    fut_caps = 0
+    for op in r["ops"]:
+        rs = roots(b, op)
+        if rs and all(x.kind == "arg" for x in rs):
+            fut_caps += 1
+        elif rs and all(x.kind.startswith("call:futures_channel::oneshot::channel") for x in rs):
+            pass
+        else:
+            caps_ok = False
+    if not caps_ok or fut_caps != 1:
+        return {"ok": False, "why": "the spawned task captures something else than the loop future and the result channel"}
+    # the task is detached at once (its handle must not be able to cancel the actor)
+    sk = sinks(b, spawn_t["dest"][0]) if len(spawn_t["dest"]) == 1 else []
+    crate, sem = runtimes.handle_kind(spawn_t.get("destty") or "")
+    if sem == "cancels" and not any(x["k"] == "call" and (x["t"].get("callee") or "").endswith("::detach") for x in sk):
+        return {"ok": False, "why": "the reporting task's handle is not detached"}
+    return {"ok": True, "why": ""}
+
+
+def check_join_handle_is_inert(ctx, fx, cfg, RULE="R17.5"):
+    """what a join future waits on has no power over the actor, and a detach cannot take it away: (a) the value a join takes
+    out of the slot and awaits is not a runtime task handle whose drop cancels the task (a join that is given up after its
+    first poll — a timeout, the losing arm of a select — would take the actor down); (b) no detach implementation empties
+    the slot a join reads (a join requested before the detach would find nothing and yield None while the actor lives on,
+    its final state lost). Both were true of the smol spawner of the pinned tree (D7 / D8)."""
+    spawners = [f for f in fx.impl_fns("actor::spawner::Spawner") if f["def"].endswith("::spawn_actor")]
+    for f in spawners:
+        sname = (f.get("impl_self") or "?").split("::")[-1]
+        inst = "%s@%s" % (sname, cfg)
+        jc, dc, mk_ = handle_parts(ctx, fx, f)
+        if jc is None:
+            continue
+        # (a) what the join future awaits
+        cos = [fx.fn(st["r"]["def"]) for g_ in graph.with_forwarded(fx, jc) for _bi, _si, st in agg_sites(ctx.body(fx, g_), ak="coroutine")]
+        awaited = []
+        for co in cos:
+            if co is None:
+                continue
+            cb = ctx.body(fx, co)
+            for bi, t in cb.normal_calls():
+                if (t.get("callee") or "").endswith(("Future::poll", "::poll_unpin")):
+                    ty = (t.get("argtys") or [""])[0]
+                    crate, sem = runtimes.handle_kind(ty)
+                    if crate is not None:
+                        awaited.append((crate, sem, t["l"]))
+        bad = [a for a in awaited if a[1] == "cancels"]
+        ctx.require(not bad, RULE, inst + ":join-awaits-inert-handle", "the join future awaits a %s task handle: dropping the join future after its first poll cancels the actor" % (bad[0][0] if bad else "?"), fn=jc["def"], site=bad[0][2] if bad else jc["loc"], detail=awaited)
+        # (b) the detach implementation does not empty the slot the join reads
+        if dc is not None:
+            takes = [t for g_ in graph.with_forwarded(fx, dc) for _, t in ctx.body(fx, g_).normal_calls() if (t.get("callee") or "").endswith("option::{impl#0}::take")]
+            ctx.require(not takes, RULE, inst + ":detach-leaves-pending-join", "detaching takes the task handle out of the slot that a join requested earlier still has to read: that join yields None while the actor lives on", fn=dc["def"], site=takes[0]["l"] if takes else dc["loc"])
+        else:
+            ctx.ok(RULE, inst + ":detach-leaves-pending-join", f["loc"], "no detach implementation")
+
+
 def check_join(ctx, fx, cfg, RULE):
     spawners = [f for f in fx.impl_fns("actor::spawner::Spawner") if f["def"].endswith("::spawn_actor")]
     ctx.floor(RULE, "Spawner::spawn_actor impls (%s)" % cfg, len(spawners), 1)
@@ -208,8 +287,12 @@ def check_join(ctx, fx, cfg, RULE):
         sp = [(bi, t) for bi, t in b.normal_calls() if t.get("callee") in runtimes.SPAWN_FNS]
         if not ctx.require(len(sp) == 1, RULE, inst + ":spawns-once", "spawn_actor must hand its future to the runtime exactly once", fn=f["def"], site=f["loc"]):
             continue
-        ok = all(r.kind == "arg" for r in roots(b, sp[0][1]["args"][0]))
+        reporting = reporting_task(ctx, fx, f, b, sp[0][1])
+        ok = all(r.kind == "arg" for r in roots(b, sp[0][1]["args"][0])) or (reporting is not None and reporting["ok"])
         ctx.require(ok, RULE, inst + ":spawns-the-loop", "what is spawned is not the loop future given to spawn_actor", fn=f["def"], site=sp[0][1]["l"])
+        if reporting is not None:
+            # the loop runs in a detached task that reports its result through a one-shot channel; joins wait on the receiver
+            ctx.require(reporting["ok"], RULE, inst + ":reports-loop-result", "the spawned task must await the loop future it was given and send exactly its result into the channel whose receiver the joins wait on: %s" % reporting["why"], fn=f["def"], site=sp[0][1]["l"])
         crate, sem = runtimes.handle_kind(sp[0][1]["destty"])
         ctx.require(crate is not None, RULE, inst + ":known-handle", "unknown runtime task handle type %s: its join/drop semantics must be confirmed" % sp[0][1]["destty"][:60], fn=f["def"], site=sp[0][1]["l"], detail={"handle": sp[0][1]["destty"][:80], "drop": sem})
         # the join closure: passed to ActorHandle::new
@@ -229,7 +312,7 @@ def check_join(ctx, fx, cfg, RULE):
             calls=[("lock", lambda t: (t.get("callee") or "").startswith("async_lock::mutex::") and (t.get("callee") or "").endswith(("::lock", "::lock_arc"))),
                    ("take", nfa.callee_ends("option::{impl#0}::take"))],
             adts={"core::option::Option": "Option", "core::ops::control_flow::ControlFlow": "Res"}, retval=True,
-            fut_types=[(p[:-1], "handle") for p in runtimes.HANDLES])
+            fut_types=[(p[:-1], "handle") for p in runtimes.HANDLES] + [("futures_channel::oneshot::Receiver<core::result::Result<A,", "handle")])
         n = nfa.build(cb, A, fx, depth=2)  # the slot may be a small type of its own with an async `take`
         viols, ps = nfa.check(n, JoinSpec())
         ctx.count_nfa(n.stats(), ps)
